@@ -20,6 +20,17 @@
 (* path names when flock is called; unlink removes whatever the path names *)
 (* now.  InodeCheck says whether the code compares fstat(fd) with          *)
 (* stat(path) after a successful flock (the repaired code does).           *)
+(*                                                                         *)
+(* The janitor (mapproxy.util.lock.cleanup_lockdir, run by every 50th      *)
+(* TileLocker.lock() of any process on the lock directory): removes lock   *)
+(* files that were not opened for more than MaxLockTime -> Cleanup.  Every *)
+(* open(path, 'w+') truncates the file and so refreshes its modification   *)
+(* time (mtime); the time the inode was created (born - what the access    *)
+(* time shows on a file that is never read) is not refreshed.  ExpireBy    *)
+(* says which of the two the janitor looks at; the code looks at mtime.    *)
+(* Assumption of the janitor, made explicit: nobody stays between open()   *)
+(* and release for more than Hold <= MaxLockTime ticks (Tick is disabled   *)
+(* otherwise).  The janitor's stat-then-unlink is one step here.           *)
 (***************************************************************************)
 EXTENDS Naturals, FiniteSets, TLC
 
@@ -30,7 +41,10 @@ CONSTANTS Contender,     \* set of contenders ("processes")
           Cycles,        \* lock/unlock cycles per contender
           Timeout,       \* timeout in clock ticks
           MaxTime,       \* clock bound
-          MaxIno         \* inode id bound (model only)
+          MaxIno,        \* inode id bound (model only)
+          MaxLockTime,   \* janitor: age (ticks) after which a lock file is removed; 0 = no janitor
+          Hold,          \* janitor assumption: at most this many ticks between open() and release
+          ExpireBy       \* "mtime" (the code) | "born"
 
 NoOne == "none"
 Slot  == 0 .. NSlots-1
@@ -47,10 +61,11 @@ VARIABLES pathInode,   \* [Slot -> Inode \cup {0}]   0: path does not exist
           cycles,      \* [Contender -> Nat] remaining cycles
           now,         \* clock
           nextIno,     \* next fresh inode id
-          overlap      \* ghost: [Contender -> BOOLEAN] another contender was inside the section
+          overlap,     \* ghost: [Contender -> BOOLEAN] another contender was inside the section
                        \*        (or held the flock it asked for) at some moment of the current attempt
+          stamp        \* janitor: [Slot -> [mtime, born]] of the file the path names; [Contender -> time of its open()]
 
-vars == <<pathInode, owner, pc, fd, slot, tries, linger, deadline, cycles, now, nextIno, overlap>>
+vars == <<pathInode, owner, pc, fd, slot, tries, linger, deadline, cycles, now, nextIno, overlap, stamp>>
 
 InCS(c)  == pc[c] = "cs"
 Holders  == {c \in Contender : InCS(c)}
@@ -76,6 +91,7 @@ Init ==
   /\ now = 0
   /\ nextIno = 1
   /\ overlap = [c \in Contender |-> FALSE]
+  /\ stamp = [file |-> [s \in Slot |-> [mtime |-> 0, born |-> 0]], opened |-> [c \in Contender |-> 0]]
 
 OthersInside(c) == \E d \in Contender \ {c} : InCS(d)
 
@@ -84,7 +100,7 @@ Begin(c) ==
   /\ pc[c] = "idle" /\ cycles[c] > 0
   /\ deadline' = [deadline EXCEPT ![c] = now + Timeout]
   /\ pc' = [pc EXCEPT ![c] = "try"]
-  /\ UNCHANGED <<pathInode, owner, fd, slot, tries, linger, cycles, now, nextIno, overlap>>
+  /\ UNCHANGED <<pathInode, owner, fd, slot, tries, linger, cycles, now, nextIno, overlap, stamp>>
 
 \* _try_lock(): choose the start slot (random.randint for SemLock, the only slot for FileLock)
 \* and open(path, 'w+'): creates the file if the path is free
@@ -101,6 +117,9 @@ Open(c, s) ==
   /\ tries' = [tries EXCEPT ![c] = @ + 1]
   /\ overlap' = [overlap EXCEPT ![c] = IF tries[c] = 0 THEN OthersInside(c) ELSE @ \/ OthersInside(c)]
   /\ pc' = [pc EXCEPT ![c] = "opened"]
+  /\ stamp' = IF MaxLockTime = 0 THEN stamp
+              ELSE [file |-> [stamp.file EXCEPT ![s] = [mtime |-> now, born |-> IF pathInode[s] = 0 THEN now ELSE @.born]],
+                    opened |-> [stamp.opened EXCEPT ![c] = now]]
   /\ UNCHANGED <<owner, linger, deadline, cycles, now>>
 
 \* a contender entering the section is seen by every attempt in progress
@@ -117,14 +136,14 @@ FlockOk(c) ==
        ELSE /\ pc' = [pc EXCEPT ![c] = "cs"]
             /\ overlap' = NoteEntry(c)
             /\ tries' = [tries EXCEPT ![c] = 0]
-  /\ UNCHANGED <<pathInode, fd, slot, linger, deadline, cycles, now, nextIno>>
+  /\ UNCHANGED <<pathInode, fd, slot, linger, deadline, cycles, now, nextIno, stamp>>
 
 FlockFail(c) ==
   /\ pc[c] = "opened"
   /\ owner[fd[c]] # NoOne
   /\ pc' = [pc EXCEPT ![c] = "failclose"]
   /\ overlap' = [overlap EXCEPT ![c] = TRUE]     \* some other descriptor holds the flock it asked for
-  /\ UNCHANGED <<pathInode, owner, fd, slot, tries, linger, deadline, cycles, now, nextIno>>
+  /\ UNCHANGED <<pathInode, owner, fd, slot, tries, linger, deadline, cycles, now, nextIno, stamp>>
 
 \* repaired code: fstat(fd).st_ino = stat(path).st_ino ?
 VerifyOk(c) ==
@@ -133,13 +152,13 @@ VerifyOk(c) ==
   /\ pc' = [pc EXCEPT ![c] = "cs"]
   /\ overlap' = NoteEntry(c)
   /\ tries' = [tries EXCEPT ![c] = 0]
-  /\ UNCHANGED <<pathInode, owner, fd, slot, linger, deadline, cycles, now, nextIno>>
+  /\ UNCHANGED <<pathInode, owner, fd, slot, linger, deadline, cycles, now, nextIno, stamp>>
 
 VerifyFail(c) ==
   /\ pc[c] = "locked"
   /\ pathInode[slot[c]] # fd[c]
   /\ pc' = [pc EXCEPT ![c] = "failclose"]
-  /\ UNCHANGED <<pathInode, owner, fd, slot, tries, linger, deadline, cycles, now, nextIno, overlap>>
+  /\ UNCHANGED <<pathInode, owner, fd, slot, tries, linger, deadline, cycles, now, nextIno, overlap, stamp>>
 
 \* fp.close() of a descriptor that did not get the lock (releases a flock taken on an orphan inode);
 \* SemLock: next slot while tries < n, else LockError reaches FileLock.lock()
@@ -150,23 +169,23 @@ CloseFail(c) ==
   /\ IF tries[c] < NSlots
        THEN pc' = [pc EXCEPT ![c] = "try"] /\ UNCHANGED tries
        ELSE pc' = [pc EXCEPT ![c] = "failed"] /\ tries' = [tries EXCEPT ![c] = 0]
-  /\ UNCHANGED <<pathInode, slot, linger, deadline, cycles, now, nextIno, overlap>>
+  /\ UNCHANGED <<pathInode, slot, linger, deadline, cycles, now, nextIno, overlap, stamp>>
 
 \* except LockError: time() < stop_time -> sleep(step)
 Retry(c) ==
   /\ pc[c] = "failed" /\ now < deadline[c]
   /\ pc' = [pc EXCEPT ![c] = "sleep"]
-  /\ UNCHANGED <<pathInode, owner, fd, slot, tries, linger, deadline, cycles, now, nextIno, overlap>>
+  /\ UNCHANGED <<pathInode, owner, fd, slot, tries, linger, deadline, cycles, now, nextIno, overlap, stamp>>
 
 TimeoutStep(c) ==
   /\ pc[c] = "failed" /\ now >= deadline[c]
   /\ pc' = [pc EXCEPT ![c] = "timedout"]
-  /\ UNCHANGED <<pathInode, owner, fd, slot, tries, linger, deadline, cycles, now, nextIno, overlap>>
+  /\ UNCHANGED <<pathInode, owner, fd, slot, tries, linger, deadline, cycles, now, nextIno, overlap, stamp>>
 
 Wake(c) ==
   /\ pc[c] = "sleep"
   /\ pc' = [pc EXCEPT ![c] = "try"]
-  /\ UNCHANGED <<pathInode, owner, fd, slot, tries, linger, deadline, cycles, now, nextIno, overlap>>
+  /\ UNCHANGED <<pathInode, owner, fd, slot, tries, linger, deadline, cycles, now, nextIno, overlap, stamp>>
 
 \* unlock(), remove style: os.remove(path) removes whatever inode the path names now;
 \* if the path is gone (OSError) the descriptor is closed instead (next step)
@@ -179,7 +198,7 @@ Unlink(c) ==
             /\ pc' = [pc EXCEPT ![c] = "gc"]
        ELSE /\ pc' = [pc EXCEPT ![c] = "fallback"]
             /\ UNCHANGED <<pathInode, linger, fd>>
-  /\ UNCHANGED <<owner, cycles, slot, tries, deadline, now, nextIno, overlap>>
+  /\ UNCHANGED <<owner, cycles, slot, tries, deadline, now, nextIno, overlap, stamp>>
 
 CloseFallback(c) ==
   /\ pc[c] = "fallback"
@@ -187,7 +206,7 @@ CloseFallback(c) ==
   /\ fd' = [fd EXCEPT ![c] = 0]
   /\ pc' = [pc EXCEPT ![c] = IF cycles[c] = 1 THEN "done" ELSE "idle"]
   /\ cycles' = [cycles EXCEPT ![c] = @ - 1]
-  /\ UNCHANGED <<pathInode, slot, tries, linger, deadline, now, nextIno, overlap>>
+  /\ UNCHANGED <<pathInode, slot, tries, linger, deadline, now, nextIno, overlap, stamp>>
 
 \* the FileLock/LockFile object is dropped: the descriptor of the removed file is closed
 GcClose(c) ==
@@ -196,7 +215,7 @@ GcClose(c) ==
   /\ linger' = [linger EXCEPT ![c] = 0]
   /\ pc' = [pc EXCEPT ![c] = IF cycles[c] = 1 THEN "done" ELSE "idle"]
   /\ cycles' = [cycles EXCEPT ![c] = @ - 1]
-  /\ UNCHANGED <<pathInode, fd, slot, tries, deadline, now, nextIno, overlap>>
+  /\ UNCHANGED <<pathInode, fd, slot, tries, deadline, now, nextIno, overlap, stamp>>
 
 \* unlock(), keep style: fp.close() releases the flock
 CloseUnlock(c) ==
@@ -205,19 +224,30 @@ CloseUnlock(c) ==
   /\ fd' = [fd EXCEPT ![c] = 0]
   /\ pc' = [pc EXCEPT ![c] = IF cycles[c] = 1 THEN "done" ELSE "idle"]
   /\ cycles' = [cycles EXCEPT ![c] = @ - 1]
-  /\ UNCHANGED <<pathInode, slot, tries, linger, deadline, now, nextIno, overlap>>
+  /\ UNCHANGED <<pathInode, slot, tries, linger, deadline, now, nextIno, overlap, stamp>>
 
+\* between open() and release: the descriptor is open
+Attempting(c) == pc[c] \in {"opened", "locked", "cs", "failclose", "fallback"}
 Tick ==
   /\ now < MaxTime
+  /\ MaxLockTime > 0 => \A c \in Contender : Attempting(c) => now + 1 - stamp.opened[c] <= Hold
   /\ now' = now + 1
-  /\ UNCHANGED <<pathInode, owner, pc, fd, slot, tries, linger, deadline, cycles, nextIno, overlap>>
+  /\ UNCHANGED <<pathInode, owner, pc, fd, slot, tries, linger, deadline, cycles, nextIno, overlap, stamp>>
+
+\* cleanup_lockdir: the lock file was not opened for more than MaxLockTime
+Expired(s) == (IF ExpireBy = "mtime" THEN stamp.file[s].mtime ELSE stamp.file[s].born) + MaxLockTime < now
+Cleanup(s) ==
+  /\ MaxLockTime > 0 /\ NSlots = 1          \* (the slot files of the semaphore do not end in the suffix the janitor looks for)
+  /\ pathInode[s] # 0 /\ Expired(s)
+  /\ pathInode' = [pathInode EXCEPT ![s] = 0]
+  /\ UNCHANGED <<owner, pc, fd, slot, tries, linger, deadline, cycles, now, nextIno, overlap, stamp>>
 
 Step(c) ==
   \/ Begin(c) \/ (\E s \in Slot : Open(c, s)) \/ FlockOk(c) \/ FlockFail(c) \/ VerifyOk(c) \/ VerifyFail(c)
   \/ CloseFail(c) \/ Retry(c) \/ TimeoutStep(c) \/ Wake(c) \/ Unlink(c) \/ CloseFallback(c) \/ GcClose(c)
   \/ CloseUnlock(c)
 
-Next == (\E c \in Contender : Step(c)) \/ Tick
+Next == (\E c \in Contender : Step(c)) \/ Tick \/ (\E s \in Slot : Cleanup(s))
 
 Spec == Init /\ [][Next]_vars
 FairSpec == Spec /\ \A c \in Contender : WF_vars(Step(c))
